@@ -10,6 +10,7 @@ import itertools
 import random
 import shutil
 import tempfile
+from pathlib import Path
 
 from ..core import CaseResult, jhash
 
@@ -20,7 +21,7 @@ RULE = ('case = (set of task full names over confusable segment alphabets, query
         'structural matches, or exactly one match via a shortened form while a textually confusable other name '
         '(prefix/suffix related segment) is present; distinct = hash(sorted name set, query)')
 REQUIRED = ['fn_queries', 'short_form_inputs_bound', 'self_named_input_cases', 'multi_match_queries', 'must_raise_ambiguous', 'winner_required', 'chain_queries',
-            'input_registry_queries', 'permutations_checked']
+            'input_registry_queries', 'permutations_checked', 'run_arguments_resolved', 'run_arguments_resolved_by_less_nested_rule']
 ASSUMPTIONS = ['"shorter form" = the whole namespace and/or the whole group path dropped (partial namespace/group paths '
                'must not match)',
                'where only the liberal reading finds a less-nested winner, raising and returning that winner are both '
@@ -30,7 +31,7 @@ EXHAUSTIVE = {'quick': False, 'thorough': False}
 
 NS = [(), ('n',), ('xn',), ('nx',), ('n', 'm'), ('m', 'n'), ('xn', 'm')]
 GR = [(), ('g',), ('xg',), ('gx',), ('h', 'g'), ('g', 'h')]
-NM = ['a', 'xa', 'ax']
+NM = ['a', 'xa', 'ax', '_a']
 SMALL_NS = [(), ('n',), ('xn',), ('m', 'n'), ('n', 'm')]
 SMALL_GR = [(), ('g',), ('xg',), ('h', 'g')]
 SMALL_NM = ['a', 'xa']
@@ -177,7 +178,7 @@ def check_set(names, rng, res: CaseResult, perm_limit=24, where='fn'):
 
 # ---- through real chains ------------------------------------------------------------------------------------------
 
-def build_chain(names, tmp, with_consumer=True, short_inputs=None, self_inputs=None):
+def build_chain(names, tmp, with_consumer=True, short_inputs=None, self_inputs=None, arg_consumers=None):
     """Real chain whose task full names are exactly `names` (+ a consumer that has all of them as inputs)."""
     from taskchain import Config, Task
     from taskchain.data import JSONData  # noqa
@@ -191,8 +192,8 @@ def build_chain(names, tmp, with_consumer=True, short_inputs=None, self_inputs=N
                                      **({'task_group': ':'.join(slug_g)} if slug_g else {}),
                                      **({'input_tasks': list(self_inputs[(slug_g, nm)])} if self_inputs and (slug_g, nm) in self_inputs else {})})
 
-            def run(self) -> int:
-                return 1
+            def run(self) -> str:
+                return self.fullname       # every task's value names the task
             classes[(slug_g, nm)] = type(f'T{len(classes)}', (Task,), {'Meta': meta, 'run': run, '__module__': __name__})
         return classes[(slug_g, nm)]
 
@@ -224,6 +225,12 @@ def build_chain(names, tmp, with_consumer=True, short_inputs=None, self_inputs=N
         def run(self) -> int:
             return 0
         root.data['tasks'] = list(root.data['tasks']) + [type('Consumer', (Task,), {'Meta': meta, 'run': run, '__module__': __name__})]
+    for i, args in enumerate(arg_consumers or []):
+        # dependants of every task whose `run` asks for some of them by bare argument names
+        ameta = type('Meta', (), {'name': f'zz_args{i}', 'input_tasks': list(names)})
+        ns_ = {}
+        exec(f'def run(self, {", ".join(args)}) -> list:\n    return [{", ".join(args)}]\n', ns_)
+        root.data['tasks'] = list(root.data['tasks']) + [type(f'ArgConsumer{i}', (Task,), {'Meta': ameta, 'run': ns_['run'], '__module__': __name__})]
     return root.chain()
 
 
@@ -269,6 +276,52 @@ def check_self_named_input(names, rng, res: CaseResult, tmp):
         got = chain.tasks[n].input_tasks.task_list
         if len(got) != 1 or got[0] is not want:
             res.violate(f'task {n} of chain {sorted(names)}: input `{q}` bound to {[str(b) for b in got]}, expected {exp[1]}', witness=wit)
+
+
+def check_run_arguments(names, rng, res: CaseResult, tmp):
+    """arguments of `run` are names looked up among the input tasks by the same rule: a bare name that identifies one input (alone, or as the
+    less nested form) delivers that task's value; one that identifies none uniquely makes the request fail"""
+    bare = sorted({parse(n)[2] for n in names})
+    good, bad = [], []
+    for nm in bare:
+        exp, M = oracle(nm, list(names))
+        if exp[0] == 'return':
+            good.append((nm, exp[1], len(M)))
+        elif exp[0] == 'raise' and len(M) >= 2:
+            bad.append(nm)
+    groups = ([[g[0] for g in good]] if good else []) + [[b] for b in bad[:1]]
+    if not groups:
+        return
+    wit = {'names': names, 'run_arguments': groups}
+    try:
+        chain = build_chain(names, Path(tmp), with_consumer=False, arg_consumers=groups)
+    except Exception as e:
+        res.violate(f'chain with tasks {sorted(names)} and dependants whose run takes the arguments {groups} cannot be constructed: {type(e).__name__}: {e}', witness=wit)
+        return
+    k = 0
+    if good:
+        try:
+            vals = chain.tasks['zz_args0'].value
+        except Exception as e:
+            res.violate(f'dependant of all tasks {sorted(names)} with run(self, {", ".join(g[0] for g in good)}): every argument identifies one input '
+                        f'({[(g[0], g[1]) for g in good]}), but the request failed: {type(e).__name__}: {str(e)[:200]}', witness=wit)
+            vals = None
+        for (nm, want, nmatch), v in zip(good, vals or []):
+            res.count('run_arguments_resolved')
+            if nmatch >= 2:
+                res.count('run_arguments_resolved_by_less_nested_rule')
+                res.nt(jhash([sorted(names), nm, 'run_arg']))
+            if v != want:
+                res.violate(f'dependant of all tasks {sorted(names)}: run argument `{nm}` received the value of {v!r}, expected the value of {want}', witness=wit)
+        k = 1
+    if bad:
+        res.count('ambiguous_run_arguments')
+        try:
+            v = chain.tasks[f'zz_args{k}'].value
+            res.violate(f'dependant of all tasks {sorted(names)}: run argument `{bad[0]}` matches several inputs none of which is the less nested form, '
+                        f'but the request returned {v!r}', witness=wit)
+        except Exception:
+            res.count('ambiguous_run_arguments_refused')
 
 
 def check_chain(names, rng, res: CaseResult):
@@ -327,6 +380,7 @@ def check_chain(names, rng, res: CaseResult):
             res.violate(f'chain with tasks {sorted(names)}: a dependant declaring every task by its full name cannot be '
                         f'constructed: {type(e).__name__}: {e}', witness={'names': names, 'via': 'construction'})
             consumer = None
+        check_run_arguments(names, rng, res, tmp)
         got = {n for n in chain.tasks if n != 'zz_consumer' and not n.endswith('zz_short')}
         if got != set(names):
             # the classes and namespaces given to the chain have exactly the full names `names`
